@@ -136,6 +136,98 @@ FIRING = [
             raise BufferedError(issues)
         with cls._BUFFER_LOCK:
             cls._buffered_collections.update(remaining_collections)""")]),
+    # ---------------------------------------------------- second-generation rules
+    dict(id="c16-setdefault-returns-raw-default", fires={"C16": "C16.e"},
+         edits=[(DT + "synced_dict.py", """                    ret = self._data[key] = self._from_base(default, parent=self)""", """                    self._data[key] = self._from_base(default, parent=self)
+                    ret = default""")]),
+    dict(id="c18-single-underscore-prefix", fires={"C18": "C18.d"},
+         edits=[(DT + "attr_dict.py", """        if key in self._PROTECTED_KEYS or key.startswith("__"):
+            super().__setattr__(key, value)""", """        if key in self._PROTECTED_KEYS or key.startswith("_"):
+            super().__setattr__(key, value)"""),
+                (DT + "attr_dict.py", """        if key in self._PROTECTED_KEYS or key.startswith("__"):
+            super().__delattr__(key)""", """        if key in self._PROTECTED_KEYS or key.startswith("_"):
+            super().__delattr__(key)""")]),
+    dict(id="c02-truthiness-guard", fires={"C02": "C02.h"},
+         edits=[(DT + "synced_dict.py", "                            new_value is not None\n", "                            new_value\n")]),
+    dict(id="c02-child-merge-unprotected", fires={"C02": "C02.i"},
+         edits=[(DT + "synced_list.py", """                        try:
+                            self._data[i]._update(data[i])
+                            continue
+                        except ValueError:
+                            pass""", """                        self._data[i]._update(data[i])
+                        continue""")]),
+    dict(id="c11-validate-shortcut", fires={"C11": "C11.e"},
+         edits=[(DT + "synced_collection.py", """        for validator in self._all_validators:
+            validator(data)""", """        if isinstance(data, SyncedCollection):
+            return
+        for validator in self._all_validators:
+            validator(data)""")]),
+    dict(id="c07-counter-not-decremented-on-error", fires={"C07": "C07.d"},
+         edits=[(BUF + "file_buffered_collection.py", """        try:
+            super().__exit__(exc_type, exc_val, exc_tb)
+        finally:
+            # The capacity must be restored even if the flush raises.
+            original_buffer_capacity = self._original_buffer_capacitys.pop()
+            if original_buffer_capacity is not None:
+                self._cls.set_buffer_capacity(original_buffer_capacity)""", """        original_buffer_capacity = self._original_buffer_capacitys.pop()
+        if original_buffer_capacity is not None:
+            self._cls.set_buffer_capacity(original_buffer_capacity)
+        super().__exit__(exc_type, exc_val, exc_tb)""")]),
+    dict(id="c07-return-in-finally-swallows", fires={"C07": "C07.g"},
+         edits=[(BUF + "serialized_file_buffered_collection.py", """        if type(self)._CURRENT_BUFFER_SIZE > type(self)._BUFFER_CAPACITY:
+            type(self)._flush_buffer(force=True)
+        return self._decode(blob)""", """        try:
+            if type(self)._CURRENT_BUFFER_SIZE > type(self)._BUFFER_CAPACITY:
+                type(self)._flush_buffer(force=True)
+        finally:
+            return self._decode(blob)""")]),
+    dict(id="c07-metadata-refresh-unconditional", fires={"C07": "C07.f"},
+         edits=[(BUF + "memory_buffered_collection.py", """                    else:
+                        cached_data["modified"] = False""", """                    else:
+                        cached_data["modified"] = False
+                        cached_data["metadata"] = self._get_file_metadata()""")]),
+    dict(id="c01-exit-skips-save-on-error", fires={"C01": "C01.e"},
+         edits=[(DT + "synced_collection.py", """        try:
+            self._collection._save()
+        finally:""", """        try:
+            if exc_type is None:
+                self._collection._save()
+        finally:""")]),
+    dict(id="c08-text-mode-write", fires={"C08": "C08.a"},
+         edits=[(BK + "collection_json.py", """            with open(self._filename, "wb") as file:
+                file.write(blob)""", """            with open(self._filename, "w") as file:
+                file.write(blob.decode())""")]),
+    dict(id="c08-flag-set-only-at-class-creation", fires={"C08": "C08.c"},
+         edits=[(DT + "synced_collection.py", """            cls._thread_lock = _thread_lock
+            cls._threading_support_is_active = True""", """            cls._thread_lock = _thread_lock"""),
+                (DT + "synced_collection.py", """            cls._locks = {}
+            cls.enable_multithreading()""", """            cls._locks = {}
+            cls.enable_multithreading()
+            cls._threading_support_is_active = True""")]),
+    dict(id="c10-lock-table-written-unlocked", fires={"C10": "C10.e"},
+         edits=[(DT + "synced_collection.py", """            with self._cls_lock:
+                if self._lock_id not in self._locks:
+                    self._locks[self._lock_id] = RLock()""", """            if self._lock_id not in self._locks:
+                self._locks[self._lock_id] = RLock()""")]),
+    dict(id="c12-update-own-type-test", fires={"C12": "C12.e"},
+         edits=[(DT + "synced_list.py", """        elif _sequence_resolver.get_type(data) == "SEQUENCE":
+            with self._suspend_sync:""", """        elif isinstance(data, Sequence) or _is_atleast_1d_numpy_array(data):
+            with self._suspend_sync:""")]),
+    dict(id="c16-to-base-wrong-resolver", fires={"C16": "C16.f"},
+         edits=[(DT + "synced_list.py", """            switch_type = _sc_resolver.get_type(value)
+            if switch_type == "SYNCEDCOLLECTION":
+                converted.append(value._to_base())""", """            switch_type = _sequence_resolver.get_type(value)
+            if switch_type == "SEQUENCE":
+                converted.append(value._to_base())""")]),
+    dict(id="c18-iter-returns-copy", fires={"C18": "C18.f"},
+         edits=[(DT + "synced_collection.py", """        self._load()
+        return iter(self._data)""", """        return iter(self())""")]),
+    dict(id="c19-global-negative-memo", fires={"C19": "C19.c"},
+         edits=[(DT + "synced_collection.py", """_collection_resolver = AbstractTypeResolver(""", """_plain_types = set()
+
+_collection_resolver = AbstractTypeResolver("""),
+                (DT + "synced_collection.py", """        return _convert_numpy(data)""", """        _plain_types.add(type(data))
+        return _convert_numpy(data)""")]),
     # ------------------------------------------------------------------ C06
     dict(id="c06-flush-decides-on-own-data", fires={"C06": "C06.a"},
          edits=[(BUF + "memory_buffered_collection.py", """                    if cached_data["modified"]:
